@@ -5,6 +5,7 @@
 package syncsim
 
 import (
+	"errors"
 	"sort"
 
 	"github.com/icon-project/goloop/common/db"
@@ -25,7 +26,12 @@ type jdb struct {
 	inner   db.Database
 	journal []jentry
 	gets    int
+	// fault injection (profile rawfaults): the failAt-th Set from now on fails (0 = none); injected counts
+	failAt   int
+	injected int
 }
+
+var errInjectedWrite = errors.New("injected: write failed (disk error)")
 
 func newJDB() *jdb { return &jdb{inner: db.NewMapDB()} }
 
@@ -56,6 +62,13 @@ func (b *jbucket) Has(key []byte) (bool, error) {
 }
 
 func (b *jbucket) Set(key []byte, value []byte) error {
+	if b.d.failAt > 0 {
+		b.d.failAt--
+		if b.d.failAt == 0 {
+			b.d.injected++
+			return errInjectedWrite
+		}
+	}
 	b.d.journal = append(b.d.journal, jentry{n: len(b.d.journal), bk: b.id, key: string(key), val: string(value)})
 	return b.inner.Set(key, value)
 }
